@@ -50,10 +50,10 @@ ASSUMPTIONS = ["all text is printable ASCII",
                "back as the position by design (like the GFF defaults), and `abs` / the judge expect exactly that (refNum, withDefaultIndex); an Index "
                "holding a blank is excluded (the REFERENCE line separates number and range by blanks)",
                "IN the domain since the review (and judged): metadata with runs of blanks, name-less records (two known findings), any blank-free Reference.Index; features without location {0,0}, reversed / negative spans, Join-less multi-operand nodes, complement of complement (all pass)"]
-PARTIAL = ["build_strict_layout_partial: proved for WFLayout (single-spaced metadata, non-empty name); the judge's domain wfLayoutJ also holds metadata "
-           "with runs of blanks and name-less records, where the clause FAILS exactly on the known findings C03-blank-run-at-wrap (witness "
-           "blank_run_at_wrap_record_witness) and C03-nameless-locus (witness nameless_locus_witness); a record with blank runs none of which "
-           "falls on a wrap point satisfies the clause (judged on every such case) but is outside the proved hypothesis",
+PARTIAL = ["build_strict_layout_partial: proved on the judge's layout domain wfLayoutJ minus EXACTLY the two known findings (wfLayoutG = wfLayoutJ, a locus "
+           "name, no run of blanks at a wrap point of WrapString(_, 68)): metadata with runs of blanks inside a line is covered; "
+           "layout_domain_partition shows wfLayoutJ = theorem domain ∪ C03-blank-run-at-wrap ∪ C03-nameless-locus, and the witnesses "
+           "blank_run_at_wrap_record_witness / nameless_locus_witness show the clause fails there (class tag /lay = inside the theorem)",
            "parse_build (WFSeq x → parse (build x o) ≈ ok x over the parser model of C01): proved as parse_build_partial (Props/C03Parse.lean) under "
            "`covered x` = wfSeq x && refsFit && GbLayout.wf (toRec x). Since C01's widening the locus is unrestricted (any of the twelve molecule "
            "types or none, optional topology / division / length string / date; empty reference range; wide key sets; inner quotation marks). "
